@@ -142,6 +142,7 @@ inductive SeekFrom where
 /-- `UNIX_EPOCH`, `Duration::from_secs`, `SystemTime + Duration` (nanoseconds) -/
 def UNIX_EPOCH : SystemTime := 0
 def duration_from_secs (s : Nat) : Duration := s * 1000000000
+def duration_from_millis (ms : Nat) : Duration := ms * 1000000
 /-- `FileSetBloom`: a Bloom filter has no false negatives, but answers "maybe" for some paths that were never
     inserted.  Those false positives are an UNKNOWN list (`opaque`: nothing can be proved about its members) that
     the filter contains from the start; `insert` adds the real members (`set_insert`), `contains` is membership.
